@@ -3,6 +3,7 @@
 set -u
 D="/verif/seeded/$1"; shift
 cd /verif
+rm -rf /verif/.evidence.keep; cp -r /verif/evidence /verif/.evidence.keep
 git -C /repo apply "$D/patch.diff" || { echo "patch does not apply"; exit 2; }
 RES=""
 for c in "$@"; do
@@ -12,4 +13,5 @@ for c in "$@"; do
   RES="$RES{\"check\":\"$c\",\"tier\":\"quick\",\"exit\":$rc,\"signature\":\"$sig\"},"
 done
 git -C /repo checkout -- .
+rm -rf /verif/evidence; mv /verif/.evidence.keep /verif/evidence
 jq --argjson res "[${RES%,}]" '. + {checks_rerun_after_strengthening: ((.checks_rerun_after_strengthening // []) | map(select(.check as $c | ($res | map(.check) | index($c)) | not)) + $res)}' "$D/meta.json" > /tmp/meta.$$ && mv /tmp/meta.$$ "$D/meta.json"
